@@ -423,10 +423,13 @@ class REPEX_state:
     def set_rgen(self):
         """Set numpy random generator state from restart."""
         # jobs issued so far: the completed ones and those still in flight
+        # (and, if recorded, those a previous restart could not resume)
+        current = self.config["current"]
         seed_sequence = np.random.SeedSequence(
             entropy=self.config["simulation"]["seed"],
-            n_children_spawned=self.cstep
-            + len(self.config["current"].get("locked", [])),
+            n_children_spawned=current.get(
+                "spawned", self.cstep + len(current.get("locked", []))
+            ),
         )
         self.rgen = default_rng(seed_sequence)
         self.rgen.bit_generator.state = self.config["current"]["rng_state"]
@@ -771,6 +774,14 @@ class REPEX_state:
             )
         self.config["current"]["locked"] = locked_ep
         self.config["current"]["rng_state"] = self.rgen.bit_generator.state
+        # number of job streams handed out so far. Only recorded when it does
+        # not follow from cstep and locked, i.e. after a restart that could
+        # not resume every recorded job (fewer steps left than jobs)
+        spawned = self.rgen.bit_generator._seed_seq.n_children_spawned
+        if spawned != self.cstep + len(locked_ep):
+            self.config["current"]["spawned"] = spawned
+        else:
+            self.config["current"].pop("spawned", None)
 
         # save accumulative fracs
         self.config["current"]["frac"] = {}
